@@ -173,13 +173,13 @@ def serialize(cfg: dict, stmts: list, ns: list | None = None) -> bytes:
     else:
         conv = T.stmt_to_rdflib
         if entry == "graph_serialize":
-            store = rdflib_store_of(stmts, ns, dataset=cfg["physical"] != 1, empty_graphs=cfg.get("empty_graphs"))
+            store = rdflib_store_of(stmts, ns, dataset=cfg.get("store_dataset", cfg["physical"] != 1), empty_graphs=cfg.get("empty_graphs"))
             options = make_options(cfg)
             store.serialize(out, format="jelly", options=options, stream=make_stream(cfg, options))
         elif entry == "graph_serialize_path":
             import os
             import tempfile
-            store = rdflib_store_of(stmts, ns, dataset=cfg["physical"] != 1, empty_graphs=cfg.get("empty_graphs"))
+            store = rdflib_store_of(stmts, ns, dataset=cfg.get("store_dataset", cfg["physical"] != 1), empty_graphs=cfg.get("empty_graphs"))
             fd, path = tempfile.mkstemp(suffix=".jelly", prefix="rv-ser-")
             os.close(fd)
             try:
@@ -190,10 +190,10 @@ def serialize(cfg: dict, stmts: list, ns: list | None = None) -> bytes:
             finally:
                 os.unlink(path)
         elif entry == "graph_serialize_stream_only":
-            store = rdflib_store_of(stmts, ns, dataset=cfg["physical"] != 1, empty_graphs=cfg.get("empty_graphs"))
+            store = rdflib_store_of(stmts, ns, dataset=cfg.get("store_dataset", cfg["physical"] != 1), empty_graphs=cfg.get("empty_graphs"))
             store.serialize(out, format="jelly", stream=make_stream(cfg, make_options(cfg)))   # no options=
         elif entry == "graph_serialize_options":
-            store = rdflib_store_of(stmts, ns, dataset=cfg["physical"] != 1, empty_graphs=cfg.get("empty_graphs"))
+            store = rdflib_store_of(stmts, ns, dataset=cfg.get("store_dataset", cfg["physical"] != 1), empty_graphs=cfg.get("empty_graphs"))
             store.serialize(out, format="jelly", options=make_options(cfg))
         elif entry == "flat_to_file":
             assert delimited
@@ -203,14 +203,14 @@ def serialize(cfg: dict, stmts: list, ns: list | None = None) -> bytes:
             write_frames(frames, out, delimited, cfg.get("collect", False))
         elif entry == "grouped_to_file":
             assert delimited
-            store = rdflib_store_of(stmts, ns, dataset=cfg["physical"] != 1, empty_graphs=cfg.get("empty_graphs"))
+            store = rdflib_store_of(stmts, ns, dataset=cfg.get("store_dataset", cfg["physical"] != 1), empty_graphs=cfg.get("empty_graphs"))
             rser.grouped_stream_to_file((s for s in [store]), out, options=make_options(cfg))
         elif entry == "stream_frames_gen":
             stream = make_stream(cfg)
             write_frames(rser.stream_frames(stream, (conv(s) for s in stmts)), out, delimited, cfg.get("collect", False))
         elif entry == "stream_frames_store":
             stream = make_stream(cfg)
-            store = rdflib_store_of(stmts, ns, dataset=cfg["physical"] != 1, empty_graphs=cfg.get("empty_graphs"))
+            store = rdflib_store_of(stmts, ns, dataset=cfg.get("store_dataset", cfg["physical"] != 1), empty_graphs=cfg.get("empty_graphs"))
             write_frames(rser.stream_frames(stream, store), out, delimited, cfg.get("collect", False))
         else:
             raise ValueError(entry)
